@@ -62,8 +62,8 @@ chk("C03", "chainsim", "exploration",
     "As C01. The complement of the valid set is sampled through the catalogue and bit flips, not enumerated. Variants with a slot more than 8 epochs ahead are skipped (process_slots of the specification itself walks every slot).",
     SIM + "byzantine-proposer and corrupting-link fault injection with verdicts compared against an executable reference model", "DESIGN.md section 6 C03")
 chk("C04", "chainsim", "exploration",
-    CHAIN + "C04 monitors at every seam where bytes leave or enter a node (signed blocks of 5 forks through ForkDecoder, beacon states of 5 forks on the restart/disk path): bytes written == ByteLength, FixedLength says variable, decode(encode(v)) re-encodes identically with the same root, struct-form bytes == tree-view bytes, JSON and YAML round trips; stream faults: legal short reads change nothing, a reader error at a PRNG-chosen byte and a failing writer surface as errors, truncated frames and a wrong first offset are refused (a cut at an element boundary of the trailing list is accepted only if it is itself a canonical encoding).",
-    "PARTIAL by design: only types that cross a simulated seam are covered (signed blocks and everything nested in them, beacon states and everything nested in them, phase0..deneb); the 'every exported type x every value' part of the statement is a pure function of the value and is not decided by this technique; Electra, light-client and pending-request types never ride a seam here. No independent SSZ codec: the reference is agreement between the struct form and the tree-view form.",
+    CHAIN + "C04 monitors at every seam where bytes leave or enter a node (signed blocks of 5 forks through ForkDecoder, beacon states of 5 forks on the restart/disk path, and at the gossip seam single attestations, signed aggregate-and-proofs, signed exits, proposer and attester slashings, sync-committee messages and signed contribution-and-proofs): bytes written == ByteLength, FixedLength says variable, decode(encode(v)) re-encodes identically with the same root, struct-form bytes == tree-view bytes, JSON and YAML round trips; stream faults: legal short reads change nothing, a reader error at a PRNG-chosen byte and a failing writer surface as errors, truncated frames and a wrong first offset are refused (a cut at an element boundary of the trailing list is accepted only if it is itself a canonical encoding).",
+    "PARTIAL by design: only types that cross a simulated seam are covered (signed blocks and everything nested in them, beacon states and everything nested in them, the seven gossip message types, phase0..deneb); the 'every exported type x every value' part of the statement is a pure function of the value and is not decided by this technique; Electra, light-client and pending-request types never ride a seam here. No independent SSZ codec: the reference is agreement between the struct form and the tree-view form.",
     SIM + "seam monitors on a simulated network + injected stream faults (short/err reads, failing writer, torn frames, bad offsets)", "DESIGN.md section 6 C04")
 chk("C05", "chainsim", "exploration",
     CHAIN + "C05 monitors: after transitions on every node (mutation histories on structurally shared trees: resets at wrap-around of small vectors, participation rotation, registry appends, sibling copies advanced alternately) the state's tree root == struct-form root of the same content == root of a view rebuilt from its own bytes; block header root == envelope root.",
